@@ -74,3 +74,32 @@ Theorem C17_code_response_payload : forall sid code data,
   fn_response_payload sid code data = (r <- mk_response (from_request_id sid) (Some code) (Some data) ;; response_payload r).
 Proof. exact tie_response_payload. Qed.
 Print Assumptions C17_code_response_payload.
+
+(* ---- the code is the model (regenerated each run): the real Client.send_request on a symbolic clock inside / after the context managers
+   (tools/symtrans.py, Gen/Fn_SendContext.v) - inside payload_override the frame sent is the override (constant / function of the request bytes), after it the request bytes again ---- *)
+From UDS Require Import Gen.Fn_SendContext Model.Services Proofs.Tie_send_common Proofs.Tie_send_flush Proofs.Tie_send_ctx.
+
+Theorem C17_code_send_request_ov_const_silence : forall cfg T P2 P2S now, timing cfg (Some T) P2 P2S ->
+  fn_send_request_ov_const_silence T P2 P2S now = ret (obs_full (send_request cfg st_ov_const tp_req (-1) now [])).
+Proof. exact tie_send_request_ov_const_silence. Qed.
+Print Assumptions C17_code_send_request_ov_const_silence.
+Theorem C17_code_send_request_ov_const_P : forall cfg T P2 P2S now a1, timing cfg (Some T) P2 P2S ->
+  fn_send_request_ov_const_P T P2 P2S now a1 = ret (obs_full (send_request cfg st_ov_const tp_req (-1) now [(a1, Frame [126; 0])])).
+Proof. exact tie_send_request_ov_const_P. Qed.
+Print Assumptions C17_code_send_request_ov_const_P.
+Theorem C17_code_send_request_ov_fun_silence : forall cfg T P2 P2S now, timing cfg (Some T) P2 P2S ->
+  fn_send_request_ov_fun_silence T P2 P2S now = ret (obs_full (send_request cfg st_ov_fun tp_req (-1) now [])).
+Proof. exact tie_send_request_ov_fun_silence. Qed.
+Print Assumptions C17_code_send_request_ov_fun_silence.
+Theorem C17_code_send_request_ov_fun_P : forall cfg T P2 P2S now a1, timing cfg (Some T) P2 P2S ->
+  fn_send_request_ov_fun_P T P2 P2S now a1 = ret (obs_full (send_request cfg st_ov_fun tp_req (-1) now [(a1, Frame [126; 0])])).
+Proof. exact tie_send_request_ov_fun_P. Qed.
+Print Assumptions C17_code_send_request_ov_fun_P.
+Theorem C17_code_send_request_after_ov_silence : forall cfg T P2 P2S now, timing cfg (Some T) P2 P2S ->
+  fn_send_request_after_ov_silence T P2 P2S now = ret (obs_full (send_request cfg st_after_ov tp_req (-1) now [])).
+Proof. exact tie_send_request_after_ov_silence. Qed.
+Print Assumptions C17_code_send_request_after_ov_silence.
+Theorem C17_code_send_request_after_ov_P : forall cfg T P2 P2S now a1, timing cfg (Some T) P2 P2S ->
+  fn_send_request_after_ov_P T P2 P2S now a1 = ret (obs_full (send_request cfg st_after_ov tp_req (-1) now [(a1, Frame [126; 0])])).
+Proof. exact tie_send_request_after_ov_P. Qed.
+Print Assumptions C17_code_send_request_after_ov_P.
